@@ -406,7 +406,7 @@ def run(tier):
                 items.append((s, a))
     t = core.Tally()
     core.run_pool([(MOD, "job", {"items": c}) for c in core.chunks(items[::-1], core.NPROC * 8)] +
-                  [(MOD, "job", {"items": c}) for c in core.chunks(items, core.NPROC * 3 + 1)] + [("mc.positional", "job", {"pid": "C10"})], 0, into=t)   # second pass, other order
+                  [(MOD, "job", {"items": c}) for c in core.chunks(items, core.NPROC * 3 + 1)] + [("mc.positional", "job", {"pid": "C10"}), ("mc.numbers", "job", {"pid": "C10"})], 0, into=t)   # second pass, other order
     core.run_pool([(MOD, "job", {"items": c}) for c in core.chunks(items[:60], core.NPROC)], 1, into=t)
     cov = {
         "states": t.c["states"], "transitions": t.c["evaluations"], "traces_validated_against_impl": t.c["evaluations"],
@@ -420,5 +420,5 @@ def run(tier):
                 "arguments unmodified; non-trivial = exported subtree has more than one node" % (npart, nfull),
         "bounds": {"full_assignments_upto": nfull, "max_nodes": npart, "trees": len(items)},
     }
-    return {"tally": t, "coverage": cov, "guards": ("exports_after_navigation_reads", "positional_calls", "reconfigured_exports", "nontrivial", "maxlevel_cuts", "imports", "exports_after_callback_fault"),
+    return {"tally": t, "coverage": cov, "guards": ("unusual_number_calls", "exports_after_navigation_reads", "positional_calls", "reconfigured_exports", "nontrivial", "maxlevel_cuts", "imports", "exports_after_callback_fault"),
             "assumptions": ["attribute values from a 5-element domain; node classes with an instance __dict__"]}
